@@ -184,10 +184,16 @@ def handle1 (entry : String) (j : Json) : Except String Json := do
     let xs ← getList pval (← field j "xs")
     let s := chunksStructPy native oa fmt size pad xs
     let a := chunksArrayPy native oa afmt size pad xs
+    let dflt ← match fieldD j "default" (Json.str "struct") with
+      | Json.str "struct" => pure Strategy.struct
+      | Json.str "array" => pure Strategy.array
+      | d => throw s!"bad default strategy {d.compress}"
+    let en := chunksEntry dflt native oa fmt afmt size pad xs
     let sp := chunksSpec (encOrder order (leElem true fmt)) size pad xs
     let spa := chunksSpec (encOrder order (leElem false afmt)) size pad xs
     pure <| Json.mkObj [
       ("struct", genJson (fun e => excName (structExc e)) s), ("array", genJson (fun e => excName (arrayExc e)) a),
+      ("dict_entry", genJson excName en),
       ("spec", genJson absErr sp), ("spec_array", genJson absErr spa),
       ("width", natToJson fmt.width), ("awidth", natToJson afmt.width), ("padlen", natToJson (padLen size xs.length))]
   | "wav" =>
